@@ -230,6 +230,12 @@ def one_call(ctx, rng, tag=''):
     fn = getattr(L, kernel)
     ctx.calls += 1
     try:
+        if out is not None and n and rng.random() < 0.3:
+            # the caller reuses its output buffer: an earlier result for
+            # other data is still in it
+            fn(layout(rng, gen_values(rng, dtype, (n, d), 'small'), 'C'),
+               np.ascontiguousarray(yv), out=out)
+            desc['out_reused'] = True
         res = fn(X, y, out=out) if out is not None else fn(X, y)
     except Exception as e:  # noqa
         return desc, ('raised', '%s: %s' % (type(e).__name__, str(e)[:200]))
